@@ -324,5 +324,116 @@ def extract_kwarg_temps() -> dict[str, str]:
     return out
 
 
+
+def _apply(transformer_factory) -> dict[str, str]:  # type: ignore[no-untyped-def]
+    out = {}
+    for rel, src in _sources().items():
+        tree = transformer_factory().visit(ast.parse(src))
+        ast.fix_missing_locations(tree)
+        new = ast.unparse(tree) + "\n"
+        compile(new, rel, "exec")
+        out[rel] = new
+    return out
+
+
+def _negate(test: ast.expr) -> ast.expr:
+    if isinstance(test, ast.UnaryOp) and isinstance(test.op, ast.Not):
+        return test.operand
+    return ast.UnaryOp(op=ast.Not(), operand=test)
+
+
+class _SwapIfElse(ast.NodeTransformer):
+    """`if c: A else: B` becomes `if not c: B else: A` (plain else only, no elif chains)."""
+
+    def visit_If(self, node: ast.If) -> ast.AST:
+        self.generic_visit(node)
+        if node.orelse and not (len(node.orelse) == 1 and isinstance(node.orelse[0], ast.If)):
+            node.test, node.body, node.orelse = _negate(node.test), node.orelse, node.body
+        return node
+
+
+def swap_if_else() -> dict[str, str]:
+    return _apply(_SwapIfElse)
+
+
+class _SplitAnd(ast.NodeTransformer):
+    """`if a and b: X` (no else) becomes `if a: if b: X`."""
+
+    def visit_If(self, node: ast.If) -> ast.AST:
+        self.generic_visit(node)
+        if not node.orelse and isinstance(node.test, ast.BoolOp) and isinstance(node.test.op, ast.And) and len(node.test.values) >= 2:
+            first, rest = node.test.values[0], node.test.values[1:]
+            inner_test = rest[0] if len(rest) == 1 else ast.BoolOp(op=ast.And(), values=rest)
+            inner = ast.If(test=inner_test, body=node.body, orelse=[])
+            node.test, node.body = first, [inner]
+        return node
+
+
+def split_and() -> dict[str, str]:
+    return _apply(_SplitAnd)
+
+
+class _EarlyReturn(ast.NodeTransformer):
+    """A function whose LAST statement is `if c: <body>` (no else) becomes `if not c: return` followed by <body>."""
+
+    def _f(self, node):  # type: ignore[no-untyped-def]
+        self.generic_visit(node)
+        last = node.body[-1] if node.body else None
+        if isinstance(last, ast.If) and not last.orelse and len(node.body) >= 1:
+            guard = ast.If(test=_negate(last.test), body=[ast.Return(value=None)], orelse=[])
+            node.body = node.body[:-1] + [guard] + last.body
+        return node
+
+    visit_FunctionDef = _f
+    visit_AsyncFunctionDef = _f
+
+
+def early_return() -> dict[str, str]:
+    return _apply(_EarlyReturn)
+
+
+
+class _AnnotateLocals(ast.NodeTransformer):
+    """Inside functions every `x = v` with a single plain-name target becomes `x: object = v` (mypy-driven annotation)."""
+
+    def _f(self, node):  # type: ignore[no-untyped-def]
+        declared = {n for s in ast.walk(node) if isinstance(s, (ast.Global, ast.Nonlocal)) for n in s.names}
+        # names bound by nonlocal/global in NESTED functions refer to this function's variables: annotating here is fine,
+        # but keep it simple and skip them as well
+        self.generic_visit(node)
+        for parent_ in ast.walk(node):
+            for f in ("body", "orelse", "finalbody"):
+                blk = getattr(parent_, f, None)
+                if not (isinstance(blk, list) and blk and isinstance(blk[0], ast.stmt)):
+                    continue
+                if isinstance(parent_, ast.ClassDef):
+                    continue
+                for i, s in enumerate(blk):
+                    if isinstance(s, ast.Assign) and len(s.targets) == 1 and isinstance(s.targets[0], ast.Name) and s.targets[0].id not in declared and not _in_class(node, s):
+                        blk[i] = ast.AnnAssign(target=s.targets[0], annotation=ast.Name(id="object", ctx=ast.Load()), value=s.value, simple=1)
+            for h in getattr(parent_, "handlers", []) or []:
+                for i, s in enumerate(h.body):
+                    if isinstance(s, ast.Assign) and len(s.targets) == 1 and isinstance(s.targets[0], ast.Name) and s.targets[0].id not in declared and not _in_class(node, s):
+                        h.body[i] = ast.AnnAssign(target=s.targets[0], annotation=ast.Name(id="object", ctx=ast.Load()), value=s.value, simple=1)
+        return node
+
+    visit_FunctionDef = _f
+    visit_AsyncFunctionDef = _f
+
+
+def _in_class(fn: ast.AST, stmt: ast.AST) -> bool:
+    """Is stmt directly in the body of a class nested in fn (class attributes must stay as they are)?"""
+    for c in ast.walk(fn):
+        if isinstance(c, ast.ClassDef) and any(s is stmt for s in c.body):
+            return True
+    return False
+
+
+def annotate_locals() -> dict[str, str]:
+    return _apply(_AnnotateLocals)
+
+
 GENERIC = {"reformat-all-modules": reformat, "shift-statements": shift, "rename-locals": rename_locals,
-           "rename-locals-deep": rename_locals_deep, "return-temp": return_temp, "extract-kwarg-temps": extract_kwarg_temps}
+           "rename-locals-deep": rename_locals_deep, "return-temp": return_temp, "extract-kwarg-temps": extract_kwarg_temps,
+           "swap-if-else": swap_if_else, "split-and": split_and, "early-return": early_return,
+           "annotate-locals": annotate_locals}
